@@ -7,6 +7,8 @@ import (
 	"os"
 	"path/filepath"
 	"regexp"
+	"runtime/debug"
+	"runtime/pprof"
 	"strings"
 	"sync/atomic"
 	"syscall"
@@ -330,9 +332,19 @@ func (e *evaluator) compareMut(cs callSpec, rk fsx.Res, kd []string, rv fsx.Res,
 
 	var nd []string
 
-	for _, d := range treeDiff(kd, vd, fm) {
-		if !masked[d] {
-			nd = append(nd, d)
+	// both trees untouched (the pristine slices themselves): nothing new
+	pk := w.pristineK
+	if w.alt {
+		pk = w.altPristineK
+	}
+
+	untouched := len(kd) > 0 && len(vd) > 0 && len(pk) > 0 && &kd[0] == &pk[0] && &vd[0] == &w.pristineV[0]
+
+	if !untouched {
+		for _, d := range treeDiff(kd, vd, fm) {
+			if !masked[d] {
+				nd = append(nd, d)
+			}
 		}
 	}
 
@@ -759,6 +771,17 @@ func (w *world) callString(cs callSpec, q string) string {
 // runWorker evaluates the configurations ci with (ci+rot) % n == shard.
 func runWorker(tier, stageName string, shard, n, rot int, deadline time.Time, outPath string) int {
 	syscall.Umask(0o022)
+
+	// the live heap is a few MB and every evaluation allocates: collect less often
+	debug.SetGCPercent(1600)
+
+	if p := os.Getenv("VERIF_C04_CPUPROFILE"); p != "" { // development aid
+		if f, err := os.Create(fmt.Sprintf("%s.%d", p, shard)); err == nil {
+			_ = pprof.StartCPUProfile(f)
+
+			defer pprof.StopCPUProfile()
+		}
+	}
 
 	st, ok := stageByName(tier, stageName)
 	if !ok {
